@@ -110,8 +110,8 @@ a("ceil", 9, lambda x: int(math.ceil(x)))
 a("floor", 9, lambda x: int(math.floor(x)))
 a("trunc", 9, int, 1)
 
-a("e", 11, lambda x, y: x * 10**y)
-a("E", 11, lambda x, y: x * 10**y)
+a("e", 11, lambda x, y: x * math.pow(10, y))  # floating point as in MediaWiki: a huge exponent is an error, not a huge integer
+a("E", 11, lambda x, y: x * math.pow(10, y))
 
 a("*", 8, lambda x, y: x * y)
 a("/", 8, lambda x, y: x / y)
